@@ -1299,6 +1299,52 @@ Definition pre7 (sm : str -> option (str * str)) (s : tds) : bool :=
 Definition pre4 (s : tds) : bool := J_b s && has_table_b T_TABBAR s.
 Definition pre39 (s : tds) : bool := J_b s && has_table_b T_TRIGGERS s && has_table_b T_SECTIONS s.
 
+(* migrations 26 / 30 / 40 (a new view section per table) *)
+Definition is_some_rid (r : rid) : bool := match r with Some _ => true | None => false end.
+Definition has_fld (c : str) (r : record) : bool := match fld c r with Ok _ => true | Err _ => false end.
+Definition col_pre_sec (c : record) : bool :=
+  has_fld (zs "parentId") c &&
+  match fld (zs "colId") c with Ok (VStr _) => true | _ => false end &&
+  match fld (zs "parentPos") c with Ok v => match val_num v with Ok _ => true | Err _ => false end | _ => false end.
+Definition pre_sec_common (s : tds) : bool :=
+  J_b s && has_table_b T_TABLES s && has_table_b T_COLUMNS s && typed_table_b T_SECTIONS s && typed_table_b T_FIELDS s &&
+  forallb is_some_rid (rows_of_model T_SECTIONS s) &&
+  forallb (fun t => match fld (zs "tableId") t with Ok (VStr _) => true | _ => false end) (recs T_TABLES s) &&
+  forallb col_pre_sec (recs T_COLUMNS s).
+Definition pre26 (s : tds) : bool :=
+  pre_sec_common s && has_table_b T_VIEWS s &&
+  forallb (fun t => match fld (zs "primaryViewId") t with Ok v => hashable v | _ => false end) (recs T_TABLES s) &&
+  forallb (has_fld (zs "name")) (recs T_VIEWS s).
+Definition pre30 (s : tds) : bool :=
+  pre_sec_common s && forallb (has_fld (zs "summarySourceTable")) (recs T_TABLES s).
+Definition pre40 (s : tds) : bool :=
+  pre_sec_common s && forallb (fun t => has_fld (zs "rawViewSectionRef") t && has_fld (zs "summarySourceTable") t) (recs T_TABLES s).
+
+(* migration 25 *)
+Definition pre25 (s : tds) : bool :=
+  J_b s && has_table_b T_FIELDS s && col_ok_b any_val T_FIELDS (zs "filter") s &&
+  col_ok_b any_val T_FIELDS (zs "colRef") s && col_ok_b any_val T_FIELDS (zs "parentId") s.
+
+(* migration 28: for every (table, column of it) of type Attachments the user table's schema has the column *)
+Definition schema_has (t c : str) (s : tds) : bool :=
+  match lookup t (t_schema s) with Some sc => has c sc | None => false end.
+Definition pair_pre28 (s : tds) (table col : record) : bool :=
+  match fld (zs "parentId") col with
+  | Ok p => if negb (py_eq (rid_val (fst table)) p) then true else
+            match fld (zs "type") col with
+            | Ok ty => if negb (py_eq ty (VStr (zs "Attachments"))) then true else
+                       match fld (zs "tableId") table, fld (zs "colId") col with
+                       | Ok (VStr tn), Ok (VStr cn) => schema_has tn cn s
+                       | _, _ => false
+                       end
+            | Err _ => false
+            end
+  | Err _ => false
+  end.
+Definition pre28 (s : tds) : bool :=
+  J_b s && has_table_b T_ATTACHMENTS s && has_table_b T_TABLES s && has_table_b T_COLUMNS s &&
+  forallb (fun t => forallb (pair_pre28 s t) (recs T_COLUMNS s)) (recs T_TABLES s).
+
 (* ---------- oracle tables and the check used by the generated cases ---------- *)
 Definition jnum_eqb (a b : jnum) : bool :=
   match a, b with
@@ -1394,6 +1440,8 @@ Definition pre_of (o : oracles) (v : Z) : tds -> bool :=
   else if Z.eqb v 34 then pre34 else if Z.eqb v 35 then pre35 else if Z.eqb v 45 then pre45
   else if Z.eqb v 10 then pre10 else if Z.eqb v 7 then pre7 (tbl_summary (o_summary o))
   else if Z.eqb v 4 then pre4 else if Z.eqb v 39 then pre39
+  else if Z.eqb v 26 then pre26 else if Z.eqb v 30 then pre30 else if Z.eqb v 40 then pre40
+  else if Z.eqb v 25 then pre25 else if Z.eqb v 28 then pre28
   else fun _ => true.
 
 (* versions whose modelled body does not reproduce the recorded actions on the state it ran on (v), or whose
